@@ -138,10 +138,17 @@ theorem matchP_congr_norm {S : Schema} {d d' x x' : DNode} (hd : S.isDupInst d.s
   have h2 := matchP_normN (x := x') hd'
   rw [← h1, ← h2, hdd, hx]
 
+theorem keysLead_normL (S : Schema) (l : List DNode) : keysLead S (normL l) = keysLead S l := by
+  simp only [keysLead, noKeys_normL]
+  rw [normL_eq_map, List.all_map]
+  apply List.all_congr rfl
+  intro y
+  simp
+
 mutual
 theorem goodN_normN (S : Schema) : ∀ x, goodN S (normN x) = goodN S x
   | .inner s f m ks => by
-    simp only [normN, goodN, goodL_normL S ks]
+    simp only [normN, goodN, goodL_normL S ks, keysLead_normL]
     rfl
   | .term s f m v => by
     simp only [normN, goodN]
@@ -156,6 +163,12 @@ theorem goodL_normL (S : Schema) : ∀ l, goodL S (normL l) = goodL S l
     intro y
     exact nlt_normN S x y
 end
+
+theorem goodT_normL (S : Schema) (l : List DNode) : goodT S (normL l) = goodT S l := by
+  simp only [goodT, goodL_normL, keysLead_normL]
+
+theorem goodT_congr_norm {S : Schema} {l l' : List DNode} (h : normL l = normL l') : goodT S l = goodT S l' := by
+  rw [← goodT_normL S l, ← goodT_normL S l', h]
 
 theorem goodN_congr_norm {S : Schema} {x x' : DNode} (h : normN x = normN x') : goodN S x = goodN S x' := by
   rw [← goodN_normN S x, ← goodN_normN S x', h]
